@@ -138,6 +138,8 @@ Definition has_stopped (w : watch) (t : nat) : out bool :=
 Definition splits (w : watch) (t : nat) : out (list split) := ((w, t), Ok (w_splits w)).
 
 Definition enter (w : watch) (t : nat) : out unit := start w t.
+(* __exit__(type, value, traceback) ignores its arguments, returns None (so an exception raised in the
+   with-body propagates) and swallows the RuntimeError of stop() *)
 Definition exit_ (w : watch) (t : nat) : out unit :=
   match stop w t with
   | (c, Exn RuntimeError) => (c, Ok tt)
@@ -148,7 +150,8 @@ Definition exit_ (w : watch) (t : nat) : out unit :=
 Inductive op :=
 | OStart | OStop | OResume | ORestart | OSplit
 | OElapsed (maximum : option Z) | OLeftover (return_none : bool) | OExpired
-| OHasStarted | OHasStopped | OSplits | OEnter | OExit.
+| OHasStarted | OHasStopped | OSplits | OEnter
+| OExit (exc : bool).     (* __exit__(type, value, traceback); exc = (type is not None): the with-body raised *)
 
 Inductive value :=
 | VSelf | VNone | VNum (z : Z) | VBool (b : bool) | VSplit (s : split) | VSplits (l : list split).
@@ -170,7 +173,7 @@ Definition step (o : op) (w : watch) (t : nat) : out value :=
   | OHasStopped => wrap VBool (has_stopped w t)
   | OSplits => wrap VSplits (splits w t)
   | OEnter => wrap (fun _ => VSelf) (enter w t)
-  | OExit => wrap (fun _ => VNone) (exit_ w t)
+  | OExit _ => wrap (fun _ => VNone) (exit_ w t)
   end.
 
 (* a history: the calls are made one after the other on the same watch and clock *)
@@ -196,7 +199,7 @@ Definition reachable (clk : nat -> Z) (c : cfg) : Prop :=
    (leftover additionally needs a duration unless return_none is set) *)
 Definition legal (o : op) (w : watch) : bool :=
   match o, w_state w with
-  | OStart, _ | ORestart, _ | OEnter, _ | OExit, _ => true
+  | OStart, _ | ORestart, _ | OEnter, _ | OExit _, _ => true
   | OHasStarted, _ | OHasStopped, _ | OSplits, _ => true
   | OStop, SNone => false
   | OStop, _ => true
@@ -217,7 +220,7 @@ Definition cost (o : op) (w : watch) : nat :=
   match o, w_state w with
   | OStart, SStarted | OEnter, SStarted => 0
   | OStart, _ | OEnter, _ => 1
-  | OStop, SStarted | OExit, SStarted => 1
+  | OStop, SStarted | OExit _, SStarted => 1
   | ORestart, SStarted => 2
   | ORestart, _ => 1
   | OSplit, SStarted => 1
@@ -266,13 +269,13 @@ Definition effective_restart (o : op) (w : watch) : bool :=
 (* a call that stops a running watch *)
 Definition effective_stop (o : op) (w : watch) : bool :=
   match o, w_state w with
-  | OStop, SStarted | OExit, SStarted => true
+  | OStop, SStarted | OExit _, SStarted => true
   | _, _ => false
   end.
 
 Definition all_ops (m : option Z) (rn : bool) : list op :=
   [OStart; OStop; OResume; ORestart; OSplit; OElapsed m; OLeftover rn; OExpired;
-   OHasStarted; OHasStopped; OSplits; OEnter; OExit].
+   OHasStarted; OHasStopped; OSplits; OEnter; OExit false; OExit true].
 
 (* does some call of the history (re)start the watch / stop or (re)start it? *)
 Fixpoint restarts_in (clk : nat -> Z) (ops : list op) (w : watch) (t : nat) : bool :=
@@ -293,3 +296,6 @@ Fixpoint stops_in (clk : nat -> Z) (ops : list op) (w : watch) (t : nat) : bool 
    the theorems carry the zone hypothesis 0 <= maximum instead *)
 Definition C13_elapsed_max_full_statement : Prop :=
   forall clk w t m c e, elapsed clk w t (Some m) = (c, Ok e) -> e <= m.
+
+(* the with statement:  with sw: body  [raise X]   =   __enter__(); body; __exit__(exception triple | None) *)
+Definition with_block (body : list op) (exc : bool) : list op := OEnter :: body ++ [OExit exc].
